@@ -173,7 +173,63 @@ func runC20(c *Ctx) {
 			}
 		}
 		c.check(raises, "R20.1", construct, p.pos(m.Pos()), "closes the channel (once)", mname+" does not raise the consumed signal")
+		if raises && mname == "Close" {
+			// Close must raise the signal on every path (a handler that closes the reader early is done with it)
+			isDo := func(in ssa.Instruction) bool {
+				ci, ok := in.(*ssa.Call)
+				return ok && calleeName(ci) == "(*sync.Once).Do"
+			}
+			if ret := reachFromEntry(m, isReturn, isDo); ret != nil {
+				c.bad("R20.1", construct+" on every path", c.ipos(ret), "Close can return without raising the consumed signal (e.g. only when closing the body fails): a handler that closes the reader early leaves the uploading request pending for ever")
+			} else {
+				c.ok("R20.1", construct+" on every path", p.pos(m.Pos()), "signal raised before every return")
+			}
+		}
+		if raises && mname == "Read" {
+			// Read raises it on every failing read: from the error branch the signal is reached
+			var readCall *ssa.Call
+			allInstrs(m, func(in ssa.Instruction) {
+				if ci, ok := in.(*ssa.Call); ok && ci.Common().IsInvoke() && ci.Common().Method.Name() == "Read" {
+					readCall = ci
+				}
+			})
+			okr := false
+			if readCall != nil {
+				for _, ref := range *readCall.Referrers() {
+					ex, ok := ref.(*ssa.Extract)
+					if !ok || ex.Index != 1 {
+						continue
+					}
+					for _, r2 := range *ex.Referrers() {
+						bo, ok := r2.(*ssa.BinOp)
+						if !ok || !(isNilConst(bo.X) || isNilConst(bo.Y)) {
+							continue
+						}
+						for _, r3 := range *bo.Referrers() {
+							if iff, ok := r3.(*ssa.If); ok {
+								fail := iff.Block().Succs[0]
+								if bo.Op == token.EQL {
+									fail = iff.Block().Succs[1]
+								}
+								isDo := func(in ssa.Instruction) bool {
+									ci, ok := in.(*ssa.Call)
+									return ok && calleeName(ci) == "(*sync.Once).Do"
+								}
+								if reachFromBlock(fail, isReturn, isDo) == nil {
+									okr = true
+								}
+							}
+						}
+					}
+				}
+			}
+			c.check(okr, "R20.1", construct+" on every failing read", p.pos(m.Pos()), "every error (incl. EOF) raises the signal", "a failing read (EOF) can return without raising the consumed signal: the upload never completes for handlers that read to EOF without closing")
+		}
 	}
+
+	// ---- R20.5
+	c.ruleOpt("R20.5", "an object handed to another goroutine over a channel is not returned to a sync.Pool by the sender")
+	c.poolSharedRule("R20.5", p.Httpio.Pkg)
 
 	// ---- locate the closures
 	dec := p.Httpio.Func("ReaderParamDecoder")
@@ -478,5 +534,46 @@ func (c *Ctx) rendezvous(fn *ssa.Function, dir string) {
 	}
 	if okAll {
 		c.ok(rule, construct, c.ipos(lookup), "locked lookup-or-create keyed by the parsed id; "+dir+" in a select with the context")
+	}
+}
+
+// poolSharedRule: sync.Pool.Put (also deferred) of an object that the same function sends on a channel.
+func (c *Ctx) poolSharedRule(rule string, pkg *types.Package) {
+	for _, fn := range c.P.Funcs {
+		if pkg != nil && pkgOf(fn) != pkg {
+			continue
+		}
+		allInstrs(fn, func(in ssa.Instruction) {
+			ci, ok := in.(ssa.CallInstruction)
+			if !ok || calleeName(ci) != "(*sync.Pool).Put" {
+				return
+			}
+			obj := stripConv(ci.Common().Args[1])
+			shared := false
+			if refs := obj.Referrers(); refs != nil {
+				for _, ref := range *refs {
+					switch x := ref.(type) {
+					case *ssa.Send:
+						if stripConv(x.X) == obj {
+							shared = true
+						}
+					case *ssa.Select:
+						for _, st := range x.States {
+							if st.Send != nil && stripConv(st.Send) == obj {
+								shared = true
+							}
+						}
+					case *ssa.MakeInterface, *ssa.ChangeInterface:
+						for _, r2 := range *x.(ssa.Value).Referrers() {
+							if s, ok := r2.(*ssa.Send); ok && s.X == x.(ssa.Value) {
+								shared = true
+							}
+						}
+					}
+				}
+			}
+			construct := fmt.Sprintf("%s: pooled object", fname(fn))
+			c.check(!shared, rule, construct, c.ipos(in), "not shared over a channel", "an object that was handed to another goroutine over a channel is returned to a sync.Pool when this function ends: the receiver keeps using it while the next request re-initialises it — a reader past EOF then yields another call's bytes")
+		})
 	}
 }
